@@ -865,7 +865,7 @@ fn run_fe(sim: &Sim, cfg: &RunCfg, prop: &'static str) -> RunOut {
         gen_fe_session(
             t,
             &FeGen {
-                max_items: 12,
+                max_items: if cfg.tier == Tier::Thorough { 24 } else { 12 },
                 fail_rate: if c03 { 40 } else { 0 },
                 forced_type: Some(cfg.index % server::N_FREQ_TYPES),
                 local_reject_rate: if c03 { 0 } else { 15 },
